@@ -376,9 +376,10 @@ package transport
 //@   ensures !explicit ==> res0 == "application/json" || res0 == "application/graphql-response+json"
 //@   ensures !explicit && acc == "" ==> res0 == "application/json"
 //@   pure
-//@ func mergeHeaders [C09]
-//@   ensures res0 != nil
-//@   modifies maps
+// (C07: the configured header maps are shared by all requests and must never be written)
+//@ func mergeHeaders [C09,C07]
+//@   ensures res0 != nil && local(res0)
+//@   modifies nothing
 //@ trusted (net/http.Header).Add(key, value)
 //@   modifies maps
 //@ func writeHeaders [C09]
@@ -390,7 +391,6 @@ package transport
 //@ trusted (messageExchanger).NextMessage() (m, err)
 //@ trusted (messageExchanger).Send(m) (err)
 //@   modifies nothing
-//@ trusted (*wsConnection).nextMessageWithTimeout(timeout) (m, err)
 //@ trusted (*wsConnection).handlePossibleError(err, isReadError)
 //@   modifies nothing
 //@ trusted (*wsConnection).sendConnectionError(format, args)
@@ -652,3 +652,16 @@ package transport
 //@   requires r != nil
 //@   ensures res0 ==> r.Method == "GET"
 //@   modifies nothing
+
+// C05/C11 (goroutine ends): the reader goroutine started for the init timeout performs exactly one send, into a
+// channel with room for it, so it can always finish - also when nobody is receiving any more (timeout won).
+//@ trusted time.After(d) (ch)
+//@   pure
+//@ func (*wsConnection).nextMessageWithTimeout [C05,C11]
+//@   requires c != nil
+//@   at! `make(chan message, 1)` requires arg1 >= 1
+//@   at! `make(chan error, 1)` requires arg1 >= 1
+//@   at! `send errs` requires true
+//@   at! `send messages` requires true
+//@   goensures calls(send) == 1 && calls(NextMessage) == 1
+//@   ensures calls(spawn) == 1
